@@ -159,7 +159,7 @@ func (c *cluster) observeRecovered(r *replica, ss pb.Snapshot) {
 // onUserUpdate is called by the user state machine for every Update.
 func (c *cluster) onUserUpdate(r *replica, index uint64, cmd []byte) {
 	if index <= r.lastUpd {
-		c.fail("C11: replica %d user SM Update index %d after %d (not strictly increasing)", r.id, index, r.lastUpd)
+		c.fail("C02/C11: replica %d user SM Update index %d after %d (not strictly increasing)", r.id, index, r.lastUpd)
 	}
 	r.lastUpd = index
 	if rec, ok := c.appliedLog[index]; ok && r.kind != kWitness {
@@ -417,7 +417,7 @@ func (c *cluster) checkCommitJustified(r *replica) {
 		}
 	}
 	if n < len(voting)/2+1 {
-		c.fail("C18/C02: leader %d committed index %d (term %d) held by only %d of its %d voting members", r.id, ci, t, n, len(voting))
+		c.fail("C02/C03/C18: leader %d committed index %d (term %d) held by only %d of its %d voting members", r.id, ci, t, n, len(voting))
 	}
 }
 
